@@ -513,3 +513,64 @@ def drain_loop_check(func, pop_ev):
     if in_loop and null_edges and not bad:
         return True, "popSafe in a loop; every normal exit goes through the `!%s` arm" % var
     return False, "consumer can stop draining with items left: exit at block %s without the null test" % (bad[0].block if bad else "-")
+
+
+# ---------- interprocedural summaries: a wrapper counts as the thing it always / possibly does ----------
+
+class Summaries(object):
+    """must(f, pred): every non-throwing path of f passes an event satisfying pred (directly or through a callee that must);
+    may(f, pred): some path of f reaches such an event (directly or through any callee that may).
+    Only functions defined in the analysed program are summarised; recursion is cut conservatively."""
+
+    def __init__(self, prog, max_depth=6):
+        self.prog = prog
+        self.max_depth = max_depth
+        self._must = {}
+        self._may = {}
+
+    def _callees(self, ev):
+        if ev["k"] == "call":
+            return [g for g in self.prog.resolve_call(ev) if g.blocks]
+        if ev["k"] == "construct" and ev.get("cid") in self.prog.funcs:
+            return [self.prog.funcs[ev["cid"]]]
+        return []
+
+    def must(self, f, pred, key, depth=0, stack=()):
+        k = (f.id, key)
+        if k in self._must:
+            return self._must[k]
+        if depth > self.max_depth or f.id in stack:
+            return False
+        lifted = self.lift_must(pred, key, depth + 1, stack + (f.id,))
+        exits = cfg.exits_without(f, lifted)
+        res = bool(f.blocks) and not [x for x in exits if x.kind != "throw"]
+        self._must[k] = res
+        return res
+
+    def lift_must(self, pred, key, depth=0, stack=()):
+        def lifted(ev):
+            if pred(ev):
+                return True
+            cs = self._callees(ev)
+            # a virtual call must perform it in every possible target
+            return bool(cs) and all(self.must(g, pred, key, depth, stack) for g in cs)
+        return lifted
+
+    def may(self, f, pred, key, depth=0, stack=()):
+        k = (f.id, key)
+        if k in self._may:
+            return self._may[k]
+        if depth > self.max_depth or f.id in stack:
+            return False
+        res = False
+        for ev in f.events():
+            if pred(ev) or any(self.may(g, pred, key, depth + 1, stack + (f.id,)) for g in self._callees(ev)):
+                res = True
+                break
+        self._may[k] = res
+        return res
+
+    def lift_may(self, pred, key):
+        def lifted(ev):
+            return pred(ev) or any(self.may(g, pred, key, 1, ()) for g in self._callees(ev))
+        return lifted
